@@ -47,6 +47,18 @@ def run(ctx):
     kw2["rerun"] = None
     vlib.validate_cases(ctx, "OptTrace", "OptTrace.cfg", shipped, label="shipped", timeout=3300, env={"VERIF_CHUNK_STRIDE": 1 if thorough else 8}, **kw2)
     ctx.cov["exhaustive"] = False
+    # the packer on its own (verif hook lalr.VerifPack): TLC enumerates line sets over values that collide under the packer's hash
+    kwp = dict(sig=lambda c: "pack:" + ";".join(",".join("%d=%d" % (p[0], p[1]) for p in l) for l in c["lines"])[:200], rerun=None, input_keys=["lines"],
+               observed_keys=["indices", "table", "check", "crash"], nontrivial=lambda c: len(c["lines"]) >= 2)
+    pg = ctx.path("packgen.ndjson")
+    ctx.tlc("PackGen", "Gen.cfg", workers=1, timeout=1500, name="packgen",
+            env={"VERIF_OUT": pg, "VERIF_PACK_N": 3 if thorough else 2, "VERIF_STRIDE": 5 if thorough else 1, "VERIF_OFFSET": ctx.seed})
+    ctx.vhrun(["pack-run", pg, pg + ".rec"])
+    vlib.validate_cases(ctx, "PackTrace", "PackTrace.cfg", pg + ".rec", label="pack-enumerated", timeout=3000, **kwp)
+    pr = ctx.path("packrnd.ndjson")
+    ctx.vhrun(["pack-random", "30000" if thorough else "4000", pr])
+    vlib.validate_cases(ctx, "PackTrace", "PackTrace.cfg", pr, label="pack-random", timeout=3000, **kwp)
+    ctx.assumptions += ["packer phase: lines over positions 0..3 with values chosen so that different lines collide under the packer's polynomial hash"]
     ctx.cov["rule"] = ("For each grammar (U_G sample, seeded random with and without precedence, corpus, and the shipped json/simple/test/tm/js grammars) the real "
                        "tables are produced in the default encoding, with optimizeTables and with optimizeTables+defaultReduce; TLC compares every state x terminal "
                        "cell and every state x nonterminal goto of both decoders (exhaustive per table). Non-trivial: grammars whose packed Table is non-empty.")
